@@ -20,8 +20,8 @@ from .common import E1_ASSUMPTIONS, E1_COMPONENTS, remove_outputs, viol, yaml_du
 ID = "C16"
 LEVEL = "exploration"
 TIERS = {
-    "quick": {"shards": 64, "examples": 40, "det_shards": 2},
-    "thorough": {"shards": 640, "examples": 150, "det_shards": 8},
+    "quick": {"shards": 128, "examples": 80, "det_shards": 2},
+    "thorough": {"shards": 1024, "examples": 300, "det_shards": 8},
 }
 RULE = ("case = one assignment of values to (option, source) pairs over the input/output/rst sections and the sources "
         "{command line, -s file, user config in ~/.config | $XDG_CONFIG_HOME | $CMINXDIR}, with a cwd, a spelling of -s, and "
@@ -111,8 +111,9 @@ def strategy(cfg):
             key, val = draw(st.sampled_from(WRONG))
             s = draw(st.sampled_from(["sfile", "user"]))
             # only where it is in effect: drop the key from higher-priority sources
-            for hs in SRC[:SRC.index(s)]:
-                src[hs].pop(key, None)
+            if key != "input.exclude_filters":      # exclude patterns are a union: every source is in effect
+                for hs in SRC[:SRC.index(s)]:
+                    src[hs].pop(key, None)
             src[s][key] = val
             wrong = {"key": key, "source": s}
         fault = None
